@@ -215,8 +215,9 @@ static void janet_mark_funcenv(JanetFuncEnv *env) {
      * we don't need to keep around the whole dead fiber. */
     janet_env_maybe_detach(env);
     if (env->offset > 0) {
-        /* On stack */
-        janet_mark_fiber(env->as.fiber);
+        /* On stack. Through janet_mark, which limits the recursion depth: a chain of fibers, each started
+         * from a closure over the previous one's stack, would otherwise recurse once per link. */
+        janet_mark(janet_wrap_fiber(env->as.fiber));
     } else {
         /* Not on stack */
         janet_mark_many(env->as.values, env->length);
